@@ -102,6 +102,8 @@ pub enum TcpMode {
     SynAck,
     Rst,
     Silent,
+    /// The connection attempt to the target fails with this errno (not "connection refused").
+    Fails(i32),
 }
 
 #[derive(Debug, Clone)]
@@ -223,6 +225,9 @@ pub enum RespKind {
     EchoReply,
     TcpSynAck,
     TcpRst,
+    /// The connection attempt failed with another error (timed out, network unreachable ...):
+    /// the socket becomes writable with that error pending; trippy ignores it (no response).
+    TcpError(i32),
 }
 
 #[derive(Debug, Clone, PartialEq, Eq)]
@@ -808,6 +813,7 @@ impl WorldInner {
                 _ if lost => (out, None),
                 TcpMode::SynAck => (out, Some((wp.t + delay, RespKind::TcpSynAck))),
                 TcpMode::Rst => (out, Some((wp.t + delay, RespKind::TcpRst))),
+                TcpMode::Fails(errno) => (out, Some((wp.t + delay, RespKind::TcpError(errno)))),
             };
         }
         if lost {
@@ -1483,6 +1489,7 @@ impl VerifSocket for SimSocket {
         w.log(t, self.tracer, self.id, Op::TakeError, Ev::TakeError { outcome, wire }, None);
         Ok(match outcome {
             Some(RespKind::TcpRst) => Some(SocketError::ConnectionRefused),
+            Some(RespKind::TcpError(errno)) => Some(SocketError::Other(os_err(errno))),
             _ => None,
         })
     }
